@@ -310,6 +310,53 @@ pub fn run(ctx: &Ctx) -> CheckResult {
     });
     res.absorb(merge_jobs(outs));
 
+    // one large window (6001): a normaliser or counter kept in a narrower type is exact for small periods
+    if !res.out.failed() {
+        let n = 6001usize;
+        let len = 2 * n + 5;
+        let mut big: Vec<Cfg> = vec![];
+        for k in ALL_KINDS {
+            if k == Kind::Rsi || k.nperiods() != 1 {
+                continue;
+            }
+            if matches!(k, Kind::Mad | Kind::Cci | Kind::Er) && !th {
+                continue; // O(window) per step
+            }
+            big.push(if k.has_mult() { Cfg::pm(k, n, 2.0) } else { Cfg::p1(k, n) });
+        }
+        let outs = par_run(ctx, &big, |_, cfg| {
+            let mut out = JobOut::default();
+            let ops: Vec<Op> = (0..len)
+                .map(|i| {
+                    let x = 50.0 + ((i * 37) % 101) as f64 * 0.37 + (i % 7) as f64 * 0.013;
+                    if cfg.kind.has_scalar() {
+                        Op::S(x)
+                    } else {
+                        Op::B(Bar { o: x, h: x * 1.01, l: x * 0.99, c: x * (0.995 + 0.005 * (i % 3) as f64), v: 1.0 + (i % 4) as f64 })
+                    }
+                })
+                .collect();
+            out.stats.states += 1;
+            out.stats.traces += 1;
+            out.stats.transitions += ops.len() as u64;
+            match run_ops(cfg, &ops) {
+                Some(base) => {
+                    for c in [3.0, 0.125] {
+                        if !check_scale(cfg, &ops, &base, c, &mut out) {
+                            return out;
+                        }
+                    }
+                    if !cfg.kind.bar_native() || cfg.kind.has_scalar() {
+                        check_shift(cfg, &ops, &base, 1000.0, &mut out);
+                    }
+                }
+                None => out.fail(Violation::new(PROP, cfg, &[], "panic").obs("panic".into()).exp("outputs".into())),
+            }
+            out
+        });
+        res.absorb(merge_jobs(outs));
+    }
+
     // Maximum(x) == -Minimum(-x) exactly
     if !res.out.failed() {
         let d = if th { 9 } else { 8 };
@@ -345,6 +392,6 @@ pub fn run(ctx: &Ctx) -> CheckResult {
     }
     res.extra.insert("scale_factors".into(), json!(factors.len()));
     res.rule = "case = (configuration, stream, transform): two real instances fed x and c*x (or x+d) step by step; price-valued outputs must scale by c (shift by d), dimensionless ones stay unchanged, within 1e-12 relative to c*M for powers of two and 1e-9 (times the condition number, gated at 1e6) otherwise; SD and Bollinger half-widths compared as variances; non-trivial = step beyond the window".into();
-    res.bounds = format!("all indicators except RSI, periods {{1,2,3,5}}: all 4^{ds} positive scalar streams, all 4^{ds} streams over 3 values + reset, all streams over {{1e300,2e300,9.9e300,4e300}} with factors 2^21, 2^20, 2^-30 (indicators without running sums) (and all 5^(depth-1) streams with a 1e6 spike symbol) / all bar streams of length {dbar} over the grid; scale factors 2^k for k in {} plus 3, 0.1, 7.3, 1e-3; shifts 0.5, 1, 100; Maximum(x) = -Minimum(-x) on all 5^{} mixed-sign streams", if th { "-40..=40".to_string() } else { format!("{:?}", ks) }, if th { 9 } else { 8 });
+    res.bounds = format!("all indicators except RSI, periods {{1,2,3,5}}: all 4^{ds} positive scalar streams, all 4^{ds} streams over 3 values + reset, all streams over {{1e300,2e300,9.9e300,4e300}} with factors 2^21, 2^20, 2^-30 (indicators without running sums) (and all 5^(depth-1) streams with a 1e6 spike symbol) / all bar streams of length {dbar} over the grid; scale factors 2^k for k in {} plus 3, 0.1, 7.3, 1e-3; shifts 0.5, 1, 100; period 6001 on a 12007-step stream (factors 3 and 1/8, shift 1000); Maximum(x) = -Minimum(-x) on all 5^{} mixed-sign streams", if th { "-40..=40".to_string() } else { format!("{:?}", ks) }, if th { 9 } else { 8 });
     res
 }
